@@ -2,6 +2,7 @@
 
 import ast
 
+from . import c06, c11
 from .. import assemblers as A
 from .. import argbind, fx, geom, grideq, kernels as K, roles, rules, singular
 from ..alg import I, V
@@ -19,7 +20,7 @@ LEVEL_TEXT = (
     "is added (one expression gates both), and that point clouds use the element-major layout of the assemblers."
 )
 LEVEL_NOTE = "Not decided: rounding-level equality of the assembled numbers; the electric-field clause holds only up to quadrature error by the statement itself."
-EXPLANATION = "rules REG-MODES, FACTORY-*, ASM-REGULAR, POT-SUM, SPEC-AGREE, GATE, GRID-IDENTITY, GEOM-AFFINE, LAUNCH-ROLES, POINT-CLOUD, ASSEMBLER-PLUMBING, ARG-FORWARDED"
+EXPLANATION = "rules REG-MODES, FACTORY-*, ASM-REGULAR, POT-SUM, SPEC-AGREE, GATE, GRID-IDENTITY, GEOM-AFFINE, LAUNCH-ROLES, POINT-CLOUD, ASSEMBLER-PLUMBING, ARG-FORWARDED, ADJ-9, PIOLA, EDGE-CONV"
 ASSUMPTIONS = ["Numba arithmetic semantics"]  # (that grids compare equal iff they are the same grid is decided: rule GRID-IDENTITY)
 
 NK = K.NK
@@ -105,3 +106,6 @@ def run(ctx):
     geom.point_cloud(ctx)
     fx.assembler_plumbing(ctx)  # 'all quadrature orders': the order given with the operator is the order the assembler integrates with
     argbind.forwarded_optionals(ctx)
+    rules.elements_adjacent_complete(ctx)  # the predicate that routes a pair to the singular rule (ADJ-9)
+    c06.piola(ctx)  # the Maxwell kernels read the Piola-mapped functions and edge lengths from these helpers
+    c11.edge_convention(ctx)
